@@ -257,16 +257,20 @@ func (s *IndexedState) Add(ctx *Context, id string, x Map) (string, error) {
 	delete(s.cachedRules, id)
 	s.slock(ctx, false)
 	id, err := s.add(ctx, id, x)
+	var js []byte
+	if err == nil {
+		// Store the fact as prepared, with its absolute
+		// expiration.  The given 'x' might have a relative
+		// "ttl", which would start again at the next Load.
+		fact := s.IdToFact[id]
+		js, err = json.Marshal(&fact)
+	}
 	s.sunlock(ctx, false)
 
 	if nil != err {
 		return "", err
 	}
 
-	js, err := json.Marshal(&x)
-	if err != nil {
-		return "", err
-	}
 	d := Pair{[]byte(id), js}
 
 	err = s.Store.Add(ctx, s.Name, &d)
